@@ -56,6 +56,7 @@ type interp struct {
 	funcs    map[string]bool // functions executed (coverage report)
 	onceDone map[*value]bool
 	syncMaps map[*value]*amap
+	shaState map[*value]*[]*term.T
 }
 
 func (i *interp) runtimeErrorType() types.Type {
